@@ -21,6 +21,17 @@ check("C07", "exploration",
       "model-based property testing (rapid) against a reference state machine, in virtual time",
       "DESIGN.md §4 C07")
 
+check("C16", "exploration",
+      "Generated triples of version vectors (incl. absent vs explicit-zero entries and counters at 2^63-1) checked against the lattice laws, a pointwise reference order, operand snapshots and a wire round trip.",
+      "Random sampling of an infinite domain: small id pools and hostile counter constants make the interesting classes frequent (class histogram in evidence), absence is not shown.",
+      "property-based testing (rapid): algebraic laws + reference model + round trip",
+      "DESIGN.md §4 C16")
+check("C17", "exploration",
+      "Generated node histories produce reachable cluster views; every merge is checked for monotonicity and the changed flag, and drawn triples are merged in all orders and compared on the projection member -> (generation, logical clock).",
+      "Reachability is modelled by re-enacting what NodeActor does with the exported ClusterView/NodeState API (bootstrap, join + generation bump, restart, suspicion, removal); the real NodeActor protocol is exercised by C18.",
+      "model-based property testing (rapid): generated histories + algebraic laws on a projection",
+      "DESIGN.md §4 C17")
+
 NOT_YET = {}
 
 def main():
